@@ -61,6 +61,15 @@ def vectors(ctx):
         H = rng.choice([0, 0, 0, 1000, 11000, 20000])
         V.append({"fn": "aero.distance", "la1": la1, "lo1": lo1, "la2": la2, "lo2": lo2, "H": H, "arr": rng.randrange(2),
                   "case": ["dist", la1, lo1, la2, lo2, H]})
+    # the radius argument on legs of every length, from a metre to half the globe
+    for n in range(ctx.pick(400, 20000)):
+        la1 = rng.randrange(-89000000, 89000001)
+        lo1 = rng.randrange(-180000000, 180000001)
+        span = 10 ** rng.randrange(0, 9)                     # micro-degrees: 1e-6 .. 100 deg
+        la2 = max(-90000000, min(90000000, la1 + rng.randrange(-span, span + 1)))
+        lo2 = max(-180000000, min(180000000, lo1 + rng.randrange(-span, span + 1)))
+        V.append({"fn": "aero.distance_scale", "la1": la1, "lo1": lo1, "la2": la2, "lo2": lo2, "H": 500 * rng.randrange(1, 41),
+                  "case": ["dscale", n]})
     for la, lo in ((0, 0), (90, 0), (-90, 0), (0, 180), (0, -180), (45, 45)):
         V.append({"fn": "aero.distance", "la1": la, "lo1": lo, "la2": la, "lo2": lo, "case": ["dist0", la, lo]})
         V.append({"fn": "aero.distance", "la1": la, "lo1": lo, "la2": -la, "lo2": lo - 180 if lo > 0 else lo + 180, "case": ["anti", la, lo]})
